@@ -1,3 +1,12 @@
-pub fn checks() -> Vec<vf_core::Check> {
-    vec![]
-}
+//! vf-world: the engine-level world shared by every engine check (R6 of DESIGN.md).
+//!
+//! * `puppet`  — native test package interpreting SystemApi scripts (installed via NativeVmExtension)
+//! * `world`   — `World`: simulator + accounts + resources + puppet packages, snapshot/restore per case
+//! * `scan`    — the harness's own full-ledger scan (vaults, supplies) from raw substates
+pub mod puppet;
+pub mod scan;
+pub mod world;
+
+pub use puppet::*;
+pub use scan::*;
+pub use world::*;
